@@ -35,16 +35,19 @@ VARIABLES st,          \* "none" (no connection yet) | "OpenSent" | "OpenConfirm
 vars == <<st, conn, attached, adjIn, out, hold, nsess, pol, hist>>
 
 (* local configurations *)
-CfgDef == [ ebgp   |-> [ibgp |-> FALSE, hold |-> 90, role |-> "none",     strict |-> FALSE, addpath |-> FALSE, rrc |-> "no"],
-            ibgp   |-> [ibgp |-> TRUE,  hold |-> 90, role |-> "none",     strict |-> FALSE, addpath |-> FALSE, rrc |-> "no"],
-            hold3  |-> [ibgp |-> FALSE, hold |-> 3,  role |-> "none",     strict |-> FALSE, addpath |-> FALSE, rrc |-> "no"],
-            cust   |-> [ibgp |-> FALSE, hold |-> 90, role |-> "customer", strict |-> FALSE, addpath |-> FALSE, rrc |-> "no"],
-            custS  |-> [ibgp |-> FALSE, hold |-> 90, role |-> "customer", strict |-> TRUE,  addpath |-> FALSE, rrc |-> "no"],
-            ap     |-> [ibgp |-> FALSE, hold |-> 90, role |-> "none",     strict |-> FALSE, addpath |-> TRUE, rrc |-> "no"],
+CfgDef == [ ebgp   |-> [ibgp |-> FALSE, hold |-> 90, role |-> "none",     strict |-> FALSE, addpath |-> FALSE, rrc |-> "no", other |-> FALSE],
+            ibgp   |-> [ibgp |-> TRUE,  hold |-> 90, role |-> "none",     strict |-> FALSE, addpath |-> FALSE, rrc |-> "no", other |-> FALSE],
+            hold3  |-> [ibgp |-> FALSE, hold |-> 3,  role |-> "none",     strict |-> FALSE, addpath |-> FALSE, rrc |-> "no", other |-> FALSE],
+            cust   |-> [ibgp |-> FALSE, hold |-> 90, role |-> "customer", strict |-> FALSE, addpath |-> FALSE, rrc |-> "no", other |-> FALSE],
+            custS  |-> [ibgp |-> FALSE, hold |-> 90, role |-> "customer", strict |-> TRUE,  addpath |-> FALSE, rrc |-> "no", other |-> FALSE],
+            ap     |-> [ibgp |-> FALSE, hold |-> 90, role |-> "none",     strict |-> FALSE, addpath |-> TRUE, rrc |-> "no", other |-> FALSE],
             \* the peer is a route reflector client: the cluster id (default = the router id, or configured) takes part in loop
             \* detection exactly while the session is attached
-            rr     |-> [ibgp |-> TRUE,  hold |-> 90, role |-> "none",     strict |-> FALSE, addpath |-> FALSE, rrc |-> "default"],
-            rrcid  |-> [ibgp |-> TRUE,  hold |-> 90, role |-> "none",     strict |-> FALSE, addpath |-> FALSE, rrc |-> "explicit"] ]
+            rr     |-> [ibgp |-> TRUE,  hold |-> 90, role |-> "none",     strict |-> FALSE, addpath |-> FALSE, rrc |-> "default", other |-> FALSE],
+            rrcid  |-> [ibgp |-> TRUE,  hold |-> 90, role |-> "none",     strict |-> FALSE, addpath |-> FALSE, rrc |-> "explicit", other |-> FALSE],
+            \* a session with another peer of the same VRF (same local AS) is established before and throughout the behaviour: the local
+            \* AS keeps taking part in loop detection whatever this session does
+            ebgp2  |-> [ibgp |-> FALSE, hold |-> 90, role |-> "none",     strict |-> FALSE, addpath |-> FALSE, rrc |-> "no", other |-> TRUE] ]
 L == CfgDef[LocalCfg]
 RouterID == 100
 LocalAS == 65000
@@ -98,6 +101,7 @@ U(ok, ann, wd, subs) == [ok |-> ok, announce |-> ann, withdraw |-> wd, subs |-> 
 UpdDef == [ annA      |-> U(TRUE, {N("a", 0)}, {}, {}),
             annAB     |-> U(TRUE, {N("a", 0), N("b", 0)}, {}, {}),
             annC6     |-> U(TRUE, {N("c6", 0)}, {}, {}),                       \* IPv6 prefix in MP_REACH_NLRI
+            annLoop   |-> U(TRUE, {N("l", 0)}, {}, {}),                        \* prefix "l": its AS_PATH contains the local AS (stored, never eligible)
             wdA       |-> U(TRUE, {}, {N("a", 0)}, {}),
             wdAannB   |-> U(TRUE, {N("b", 0)}, {N("a", 0)}, {}),
             wdC6      |-> U(TRUE, {}, {N("c6", 0)}, {}),
@@ -133,10 +137,12 @@ Notif(c, s) == Msg("NOTIFICATION", c, s)
 (* what the policies mean for the tables (C12 at server level): the Loc-RIB holds the other source's prefixes and, while the  *)
 (* session is attached and the import policy accepts, the session's; the Adj-RIB-Out holds the other source's prefixes while *)
 (* the session is attached and the export policy accepts (the session's own routes are never sent back to it)                *)
-LocOf(att, ai, pl) == {[pfx |-> x, pid |-> 0] : x \in pl.orig} \cup (IF att /\ pl.imp = "accept" THEN ai ELSE {})
+Eligible(n) == n.pfx # "l"                                                 \* C06: a path with the local AS in its AS_PATH never gets there
+LocOf(att, ai, pl) == {[pfx |-> x, pid |-> 0] : x \in pl.orig} \cup (IF att /\ pl.imp = "accept" THEN {n \in ai : Eligible(n)} ELSE {})
 OutOf(att, pl) == IF att /\ pl.exp = "accept" THEN pl.orig ELSE {}
 St == [st |-> st', conn |-> conn', attached |-> attached', adjin |-> adjIn', out |-> out', hold |-> hold', nsess |-> nsess',
-       imp |-> pol'.imp, exp |-> pol'.exp, loc |-> LocOf(attached', adjIn', pol'), adjout |-> OutOf(attached', pol')]
+       imp |-> pol'.imp, exp |-> pol'.exp, loc |-> LocOf(attached', adjIn', pol'), adjout |-> OutOf(attached', pol'),
+       asn |-> attached' \/ L.other]                                      \* the local AS takes part in the VRF's loop detection
 LogP(r) == hist' = Append(hist, r @@ [s |-> St])
 Log(r) == UNCHANGED pol /\ LogP(r)
 
@@ -144,7 +150,7 @@ Init == /\ st = "none" /\ conn = "none" /\ attached = FALSE /\ adjIn = {} /\ out
         /\ pol = [imp |-> "accept", exp |-> "accept", orig |-> {}]
         /\ hist = << [a |-> "Config", cfg |-> L, cfgname |-> LocalCfg,
                       s |-> [st |-> "none", conn |-> "none", attached |-> FALSE, adjin |-> {}, out |-> <<>>, hold |-> 0, nsess |-> 0,
-                             imp |-> "accept", exp |-> "accept", loc |-> {}, adjout |-> {}]] >>
+                             imp |-> "accept", exp |-> "accept", loc |-> {}, adjout |-> {}, asn |-> L.other]] >>
 
 (* every way back to Idle: optional NOTIFICATION, connection closed, routes gone *)
 ToIdle(msgs) ==
